@@ -465,6 +465,41 @@ pub fn run(ctx: &mut Ctx) {
             }
         }
     }
+    // boundary offsets (see gen::boundary_value) through every encoder
+    {
+        let lens = crate::gen::boundary_lengths();
+        for (li, n) in lens.iter().enumerate() {
+            if (li as u64) % ctx.nshards != ctx.shard || (ctx.quick() && *n > 1100 && *n < 65000) {
+                continue;
+            }
+            if !ctx.begin("boundary-offset", li as u64) {
+                continue;
+            }
+            for c in crate::gen::BOUNDARY_CHARS {
+                let v = crate::bridge::to_value(&crate::gen::boundary_value(*n, c));
+                ctx.eval("boundary-offset", crate::prng::mix(&[*n as u64, c as u64]), true);
+                encode_all(ctx, &v, "boundary offset");
+            }
+        }
+    }
+    // very many siblings: more than 2^16 columns, rows, elements, tags (one empty row and one empty dict among them)
+    if ctx.shard == 0 && ctx.begin("huge", 0) {
+        let n = 65_537usize + 5;
+        let num = |i: usize| Value::make_number(i as f64);
+        let mut row = Dict::new();
+        row.insert("c7".into(), num(7));
+        let grid_cols = Grid { meta: None, columns: (0..n).map(|i| Column { name: format!("c{i}"), meta: None }).collect(), rows: vec![Dict::new(), row.clone(), Dict::new()], ver: GRID_FORMAT_VERSION.to_string() };
+        let grid_rows = Grid { meta: None, columns: vec![Column { name: "c7".into(), meta: None }, Column { name: "b".into(), meta: None }], rows: (0..n).map(|i| if i % 3 == 0 { Dict::new() } else { row.clone() }).collect(), ver: GRID_FORMAT_VERSION.to_string() };
+        let list = Value::make_list((0..n).map(num).collect());
+        let mut big = Dict::new();
+        for i in 0..n {
+            big.insert(format!("t{i}"), if i % 2 == 0 { Value::Marker } else { num(i) });
+        }
+        for (k, v) in [Value::make_grid(grid_cols), Value::make_grid(grid_rows), list, Value::make_dict(big), Value::make_str(&"x".repeat(n))].iter().enumerate() {
+            ctx.eval("huge", 0x4855_0000 + k as u64, true);
+            encode_all(ctx, v, "more than 2^16 siblings");
+        }
+    }
     let n = ctx.n(12_000, 300_000);
     for i in 0..n {
         if !ctx.begin("illformed", i) {
